@@ -43,8 +43,10 @@ try:
     meta['suite_with_change'] = (r.stdout.strip().splitlines() or ['?'])[-1]
     meta['suite_passes_with_change'] = r.returncode == 0
     if (dest / 'demo.py').exists():
-        r1 = subprocess.run(['/venv/bin/python', str(dest / 'demo.py')], cwd=mut, capture_output=True, text=True, env=dict(env0, PYTHONPATH=str(mut)), timeout=1800)
-        r0 = subprocess.run(['/venv/bin/python', str(dest / 'demo.py')], cwd=clean, capture_output=True, text=True, env=dict(env0, PYTHONPATH=str(clean)), timeout=1800)
+        shutil.copy(dest / 'demo.py', mut / 'demo.py')      # some demos insist on sitting next to the package they import
+        shutil.copy(dest / 'demo.py', clean / 'demo.py')
+        r1 = subprocess.run(['/venv/bin/python', str(mut / 'demo.py')], cwd=mut, capture_output=True, text=True, env=dict(env0, PYTHONPATH=str(mut)), timeout=1800)
+        r0 = subprocess.run(['/venv/bin/python', str(clean / 'demo.py')], cwd=clean, capture_output=True, text=True, env=dict(env0, PYTHONPATH=str(clean)), timeout=1800)
         meta['demo_fails_with_change'] = r1.returncode != 0
         meta['demo_passes_without_change'] = r0.returncode == 0
     flagged = {}
